@@ -77,6 +77,10 @@ type found struct {
 	seed uint64
 	tsan string
 	race bool
+	// set when the race report could only be reproduced in the context of
+	// the worker batch that produced it (TSan state depends on process history)
+	batchFrom  uint64
+	batchCount int
 }
 
 var (
@@ -84,7 +88,7 @@ var (
 	world     string
 	prop      string
 	workers   int
-	goraceEnv = "halt_on_error=0 atexit_sleep_ms=0"
+	goraceEnv = "halt_on_error=0 atexit_sleep_ms=0 exitcode=0"
 )
 
 func main() {
@@ -156,6 +160,9 @@ func main() {
 			}
 		}
 	}
+
+	// ---- race reports: re-attribute each racing seed in a fresh process ----
+	resolveRaces(agg)
 
 	// ---- verdicts ----
 	exit := 0
@@ -263,6 +270,7 @@ type agg struct {
 	sites         map[int]struct{}
 	policies      map[int]int64
 	found         map[string]*found
+	batchRaces    []found
 	samples       []map[string]interface{}
 	seedLo        uint64
 	seedHi        uint64
@@ -412,7 +420,8 @@ func runWorker(a *agg, from uint64, count int, timeout time.Duration) error {
 	races := parseRaces(stderr.String())
 	a.mu.Lock()
 	for _, rc := range races {
-		a.addFound(rc)
+		rc.batchFrom, rc.batchCount = from, count
+		a.batchRaces = append(a.batchRaces, rc)
 	}
 	a.mu.Unlock()
 	if werr != nil || got != count {
@@ -487,8 +496,20 @@ func parseRaces(stderr string) []found {
 		for k := 0; k < len(stacks) && k < 2; k++ {
 			fn := "harness"
 			for _, l := range stacks[k] {
-				if m := reFrame.FindStringSubmatch(l); m != nil && strings.HasPrefix(m[1], modPrefix) {
+				m := reFrame.FindStringSubmatch(l)
+				if m == nil {
+					continue
+				}
+				if strings.HasPrefix(m[1], modPrefix) {
 					fn = shortFunc(m[1])
+					break
+				}
+				// the harness marks accesses a caller is entitled to make to
+				// memory it owns (its receive buffer, its arena region): if
+				// such an access races, the library kept or touched memory
+				// that is not its own
+				if strings.Contains(m[1], ".ownerWrite") || strings.Contains(m[1], ".ownerRead") {
+					fn = "caller-owned-memory"
 					break
 				}
 			}
@@ -501,6 +522,13 @@ func parseRaces(stderr string) []found {
 		sig := "race:" + fns[0] + "|" + fns[1]
 		if fns[0] == "harness" && fns[1] == "harness" {
 			sig = "harness:race"
+		}
+		if fns[0] == "caller-owned-memory" || fns[1] == "caller-owned-memory" {
+			other := fns[0]
+			if other == "caller-owned-memory" {
+				other = fns[1]
+			}
+			sig = "race:caller-owned-memory|" + other
 		}
 		text := "WARNING: DATA RACE\n" + strings.Join(block, "\n")
 		out = append(out, found{sig: sig, msg: "data race between " + fns[0] + " and " + fns[1], seed: seed, tsan: maskAddrs(text), race: true})
@@ -520,6 +548,63 @@ func maskAddrs(s string) string {
 	return s
 }
 
+// resolveRaces re-runs every seed for which a batch worker printed a race
+// report alone in a fresh process. Which pair of stacks ThreadSanitizer
+// prints for a racy location depends on the history of the process, so the
+// fresh process - a pure function of the seed - is the authority; the batch
+// report is only the trigger. If the fresh process reports nothing, the
+// batch context itself becomes the (deterministic) reproducer.
+func resolveRaces(a *agg) {
+	bySeed := map[uint64][]found{}
+	var seeds []uint64
+	for _, rc := range a.batchRaces {
+		if _, ok := bySeed[rc.seed]; !ok {
+			seeds = append(seeds, rc.seed)
+		}
+		bySeed[rc.seed] = append(bySeed[rc.seed], rc)
+	}
+	sort.Slice(seeds, func(i, j int) bool { return seeds[i] < seeds[j] })
+	// bound the work: the smallest seeds are enough to name every signature
+	if len(seeds) > 64 {
+		seeds = seeds[:64]
+	}
+	type res struct {
+		seed  uint64
+		races []found
+		err   error
+	}
+	out := make([]res, len(seeds))
+	var wg sync.WaitGroup
+	sem := make(chan struct{}, workers)
+	for i, sd := range seeds {
+		wg.Add(1)
+		go func(i int, sd uint64) {
+			defer wg.Done()
+			sem <- struct{}{}
+			defer func() { <-sem }()
+			_, rcs, err := runTape(tapeFile{World: world, Seed: sd}, false)
+			out[i] = res{sd, rcs, err}
+		}(i, sd)
+	}
+	wg.Wait()
+	for _, r := range out {
+		if r.err != nil {
+			a.addFound(found{sig: "harness:race-resolve", msg: r.err.Error(), seed: r.seed})
+			continue
+		}
+		if len(r.races) > 0 {
+			for _, rc := range r.races {
+				rc.seed = r.seed
+				a.addFound(rc)
+			}
+			continue
+		}
+		for _, rc := range bySeed[r.seed] {
+			a.addFound(rc) // keeps batchFrom/batchCount
+		}
+	}
+}
+
 // ---- confirm / shrink / replay ----
 
 type tapeFile struct {
@@ -534,6 +619,44 @@ type tapeFile struct {
 	TSan      string   `json:"tsan,omitempty"`
 	Note      []string `json:"note,omitempty"`
 	Shrink    string   `json:"shrink,omitempty"`
+	// batch replays: run seeds BatchFrom.. (BatchCount of them) in one process
+	BatchFrom  uint64 `json:"batch_from,omitempty"`
+	BatchCount int    `json:"batch_count,omitempty"`
+}
+
+// runBatch re-executes a whole worker batch and returns the race reports.
+func runBatch(from uint64, count int) ([]found, error) {
+	ctx, cancel := context.WithTimeout(context.Background(), 600*time.Second)
+	defer cancel()
+	cmd := exec.CommandContext(ctx, worker, "-world", world, "-from", strconv.FormatUint(from, 10), "-count", strconv.Itoa(count))
+	cmd.Env = workerEnv()
+	var se bytes.Buffer
+	cmd.Stderr = &se
+	if err := cmd.Run(); err != nil {
+		return nil, fmt.Errorf("batch run failed: %v", err)
+	}
+	return parseRaces(se.String()), nil
+}
+
+func confirmBatch(f *found, dir string) (string, bool, error) {
+	rcs, err := runBatch(f.batchFrom, f.batchCount)
+	if err != nil {
+		return "", false, err
+	}
+	for _, rc := range rcs {
+		if rc.sig == f.sig && rc.seed == f.seed {
+			tf := tapeFile{Property: prop, World: world, Seed: f.seed, Signature: f.sig, Message: rc.msg, TSan: rc.tsan,
+				BatchFrom: f.batchFrom, BatchCount: f.batchCount, Shrink: "not minimised: the report depends on the history of the worker process, the whole batch is the reproducer"}
+			os.MkdirAll(dir, 0o755)
+			path := filepath.Join(dir, fmt.Sprintf("%s-%d-%s.json", prop, f.seed, sanitize(f.sig)))
+			b, _ := json.MarshalIndent(tf, "", " ")
+			if err := os.WriteFile(path, b, 0o644); err != nil {
+				return "", false, err
+			}
+			return path, true, nil
+		}
+	}
+	return "", false, nil
 }
 
 // runTape executes one tape in a fresh worker process and returns the run
@@ -591,6 +714,12 @@ func hasSig(r *runResult, races []found, sig string) (bool, string, string) {
 }
 
 func confirmAndShrink(f *found, dir string) (string, bool, error) {
+	if dir == "" {
+		dir = "."
+	}
+	if f.batchCount > 0 {
+		return confirmBatch(f, dir)
+	}
 	tf := tapeFile{Property: prop, World: world, Seed: f.seed}
 	r, races, err := runTape(tf, false)
 	if err != nil {
@@ -751,6 +880,21 @@ func doReplay(path string) int {
 		return 2
 	}
 	world = tf.World
+	if tf.BatchCount > 0 {
+		rcs, err := runBatch(tf.BatchFrom, tf.BatchCount)
+		if err != nil {
+			fmt.Fprintln(os.Stderr, "simdrive:", err)
+			return 2
+		}
+		for _, rc := range rcs {
+			if rc.sig == tf.Signature {
+				fmt.Printf("VIOLATION property=%s replay=%s\n  signature: %s (seed %d of batch %d+%d)\n%s\n", tf.Property, path, rc.sig, rc.seed, tf.BatchFrom, tf.BatchCount, rc.tsan)
+				return 1
+			}
+		}
+		fmt.Printf("NOT-REPRODUCED property=%s signature=%s (batch %d+%d)\n", tf.Property, tf.Signature, tf.BatchFrom, tf.BatchCount)
+		return 0
+	}
 	r, races, err := runTape(tapeFile{World: tf.World, Seed: tf.Seed, Tape: tf.Tape}, true)
 	if err != nil {
 		fmt.Fprintln(os.Stderr, "simdrive:", err)
